@@ -277,6 +277,49 @@ theorem diag_solver_not_rotation_equivariant :
       Matrix.diagonal (fun i => (R * A * Rᵀ) i i) ≠ R * Matrix.diagonal (fun i => A i i) * Rᵀ :=
   ⟨Mat.toM diag12, Mat.toM rot345, rot345_orth, rot345_diag_ne⟩
 
+/-- model-level form of the metamorphic failure (code as it is): there are symmetric `W`, samples `F` and an orthogonal
+    `R` for which what the solver sees of `lhs` after `x ↦ R x` is NOT `R (what it saw before) Rᵀ`.
+    Witness: samples `(1,0)`, `(0,2)`, `W = 1`, the 3-4-5 rotation. -/
+theorem npe_solver_view_not_rotation_equivariant :
+    ∃ (W F R : Mat 2 2 ℚ), (∀ r c, W r c = W c r) ∧ (Mat.toM R)ᵀ * Mat.toM R = 1 ∧
+      Mat.toM (genSolveLower (npeProblem W (rotateRows R F))).1
+        ≠ Mat.toM R * Mat.toM (genSolveLower (npeProblem W F)).1 * (Mat.toM R)ᵀ :=
+  ⟨refuteW, diag12, rot345, refuteW_symm, rot345_orth, npe_view_not_equivariant_witness⟩
+
+/-- after the patch the solver's view IS rotation-equivariant (any `R`, any symmetric `W`): both matrices transform as
+    `A ↦ R A Rᵀ` under `x ↦ R x`. -/
+theorem npe_fixed_view_rotation_equivariant {W : Mat N N K} (hW : ∀ r c, W r c = W c r) (F : Mat N D K)
+    (R : Mat D D K) :
+    Mat.toM (Mat.lowerView (npeProblemFixedD W (rotateRows R F)).1.get)
+        = Mat.toM R * Mat.toM (Mat.lowerView (npeProblemFixedD W F).1.get) * (Mat.toM R)ᵀ ∧
+    Mat.toM (Mat.lowerView (npeProblemFixedD W (rotateRows R F)).2.get)
+        = Mat.toM R * Mat.toM (Mat.lowerView (npeProblemFixedD W F).2.get) * (Mat.toM R)ᵀ := by
+  obtain ⟨h1, h2⟩ := solver_sees_XMXt_fixed hW F
+  obtain ⟨h1', h2'⟩ := solver_sees_XMXt_fixed hW (rotateRows R F)
+  rw [h1, h2, h1', h2']
+  exact ⟨two_fullForm_rotate_toM W F R, fullDiagForm_rotate_toM _ F R⟩
+
+/-! ## 6. non-vacuity: concrete instances of the hypotheses, and both routines on the refutation witness -/
+
+/-- a symmetric, non-diagonal weight matrix (`W r c = r + c`) -/
+example : ∀ r c : Fin 3, (fun r c : Fin 3 => ((r.1 + c.1 : Nat) : ℚ)) r c
+    = (fun r c : Fin 3 => ((r.1 + c.1 : Nat) : ℚ)) c r := by
+  intro r c
+  simp only [Nat.add_comm]
+
+/-- the 3-4-5 rotation is orthogonal and is not a signed permutation -/
+example : (Mat.toM rot345)ᵀ * Mat.toM rot345 = 1 ∧ rot345 0 0 = 3 / 5 := ⟨rot345_orth, rfl⟩
+
+/-- on the witness of `solver_sees_XMXt_refuted` (`Fᵀ W F = [[2,1],[1,1]]`) the current routine shows the solver `0` at
+    `(0,1)`, the patched one `2 = 2 · 1` -/
+example : (genSolveLower (npeProblem refuteW refuteF)).1 0 1 = 0 ∧
+    Mat.lowerView (npeProblemFixedD refuteW refuteF).1.get 0 1 = 2 := by
+  constructor
+  · rw [solver_sees_diag refuteW_symm, if_neg (by decide)]
+  · rw [(solver_sees_XMXt_fixed refuteW_symm refuteF).1]
+    show 2 * fullForm refuteW refuteF 0 1 = 2
+    rw [refute_fullForm_01, mul_one]
+
 -- SPECTRAL THEOREMS (appended by the spectral owner)
 
 end TapkeeVerif.C10
